@@ -292,6 +292,17 @@ func report(rep *CheckReport, quiet bool) int {
 		lastViolations = append(lastViolations, "engine:"+m)
 		violations++
 	}
+	for _, m := range rep.AnchorMiss {
+		// every anchor matches on the unchanged tree; an anchor that matches nothing means the
+		// guarded operation was removed or renamed: its obligations can no longer be established
+		path := writeReplayFile(prop, "anchor:"+m, map[string]any{
+			"obligation": "site anchor binding",
+			"reason":     "a site clause of the contract matches nothing in the current tree: " + m,
+		})
+		say("VIOLATION property=%s replay=%s no-failing-input-found\n", prop, path)
+		lastViolations = append(lastViolations, "anchor-missing:"+m)
+		violations++
+	}
 	for _, m := range rep.Missing {
 		lastViolations = append(lastViolations, "missing:"+m)
 		path := writeReplayFile(prop, "missing:"+m, map[string]any{
